@@ -272,8 +272,7 @@ theorem C14_facts_var_counter_atomic :
 /-- the package-level variables of `engine` and `prolog` (well-known `Atom` values aside), audited
     by hand as never changing after initialisation -/
 def expectedPackageVars : List (String × String × String) := [
-  -- compiled regular expressions (safe for concurrent use, never reassigned)
-  ("engine", "quotedAtomEscapePattern", "*regexp.Regexp"),
+  -- (the compiled regular expression quotedAtomEscapePattern is gone with repair fedf6cc of `quote`)
   -- THE shared mutable state #1 (Model/Shared.State.names/atoms)
   ("engine", "atomTable", "struct{sync.RWMutex; names []string; atoms map[string]Atom}"),
   -- lookup tables, filled by their composite literal (or init()) and only read afterwards
